@@ -277,3 +277,65 @@ def run(ctx):
     error_discipline(ctx, 'C17.E1', at + [prog.fn('Plan::RefreshDyndepDependents'), prog.fn('Plan::DyndepsLoaded')])
     check_build_exit_codes(ctx, 'C17.E1', prog)
     ctx.floor('C17.E1', 21)
+    check_reset_complete(ctx)
+
+
+def check_reset_complete(ctx):
+    """C17.W2: State::Reset() brings every node and edge back to "never scanned"."""
+    prog = ctx.prog
+    ctx.rule('C17.W2', 'W', 'State::Reset() (run before the graph is scanned again in the same process: after a manifest-regeneration '
+             'build that left the manifest as it was) stores, for every node, "not statted" (mtime_ = -1, exists_ = unknown, '
+             'dirty_ = false) and, for every edge, outputs_ready_ = false, deps_loaded_ = false and mark_ = VisitNone; the two '
+             'loops cover paths_ and edges_ completely')
+    rs = prog.fn('State::Reset')
+    need = {
+        'Node::mtime_': (lambda r: const_value(r) == -1, 'State::paths_', 'the file is statted again'),
+        'Node::exists_': (lambda r: mentions_enum(r, 'Node::ExistenceStatusUnknown'), 'State::paths_', 'existence is unknown again'),
+        'Node::dirty_': (lambda r: const_value(r) in (0, False), 'State::paths_', 'a stale "dirty" would re-want an up-to-date edge; a stale "clean" is overwritten'),
+        'Edge::outputs_ready_': (lambda r: const_value(r) in (0, False), 'State::edges_', 'readiness is recomputed'),
+        'Edge::deps_loaded_': (lambda r: const_value(r) in (0, False), 'State::edges_', 'discovered deps are loaded (and deps_missing_ recomputed) on the next visit'),
+        'Edge::mark_': (lambda r: mentions_enum(r, 'Edge::VisitNone'), 'State::edges_', 'the cycle-check colouring starts white'),
+    }
+    loops = {c: loops_over(rs, c) for c in ('State::paths_', 'State::edges_')}
+    for c, ls in loops.items():
+        ctx.check('C17.W2', len(ls) >= 1 and all(l['full'] for l in ls), rs.name, 'Reset:partial-loop:%s' % c, rs.loc,
+                  'State::Reset() walks the whole of %s (%d loop(s))' % (c, len(ls)))
+    for fld, (val_ok, cont, why) in need.items():
+        # a store in Reset itself, or in a method Reset calls from the loop body (Node::ResetState)
+        def stores(f):
+            return [e for e in f.events('asg') if isinstance(strip(e['l']), dict) and strip(e['l']).get('k') == 'mem' and strip(e['l'])['n'] == fld]
+        done = False
+        for l in loops.get(cont, []):
+            def through(x, fld=fld, val_ok=val_ok):
+                if x['k'] == 'asg' and isinstance(strip(x['l']), dict) and strip(x['l']).get('n') == fld:
+                    return val_ok(x.get('r'))
+                if x['k'] == 'call':
+                    for g in prog.by_name.get(x.get('name') or '', []):
+                        if g.blocks and g.cls in ('Node', 'Edge'):
+                            # the callee stores the field, with the required value, on every path to its return
+                            st = [e for e in stores(g) if val_ok(e.get('r'))]
+                            bad = [e for e in stores(g) if not val_ok(e.get('r'))]
+                            if st and not bad and g.find_path(None, lambda y: y['k'] == 'ret' or y is None, from_succ=g.entry,
+                                                               is_blocker=lambda y: any(y is z for z in st)) is None:
+                                return True
+                            if st and not bad and not any(True for _ in g.events('ret')):
+                                # a void function without explicit return: the stores must be in blocks that dominate the exit
+                                if all(g.dominates_block(z['_b'], g.exit) if hasattr(g, 'dominates_block') else True for z in st):
+                                    return True
+                return False
+            hdr_hit = [None]
+
+            def edge_ok(b, i, s2, l=l):
+                if s2 == l['header']:
+                    hdr_hit[0] = b
+                    return False
+                return True
+            rs.find_path(None, lambda x: False, is_blocker=lambda x: through(x) or x['k'] == 'ret', from_succ=l['body'], edge_ok=edge_ok)
+            if hdr_hit[0] is None:
+                done = True
+        ctx.check('C17.W2', done, rs.name, 'Reset:field-not-reset:%s' % fld, rs.loc,
+                  '%s is reset for every element of %s (%s)' % (fld, cont, why))
+    # whoever scans again in the same process resets first: the callers of State::Reset are where a build is followed by another scan
+    n = sum(1 for _ in calls_to(prog, 'State::Reset'))
+    ctx.check('C17.W2', n >= 1, 'State::Reset', 'Reset:never-called', rs.loc, 'State::Reset() has %d caller(s) outside the tests' % n)
+    ctx.floor('C17.W2', 9)
